@@ -184,3 +184,51 @@ def check(run, prog, tier):
         oks = bool(loops)
     run.ob("C10-c", "args-scrubbed", oks, "destructed object arguments are replaced by 0 in a loop that dominates the push" if oks else "no scrub of destructed arguments before transfer_push_some_svalues",
            co.file, push[0][2].get("l") if push else co.line, "call_out", what="call_out(): destructed objects are passed as arguments")
+
+    # ---- C10-d the revolutions of a new entry are counted from the wheel's position, not from the clock alone
+    run.rule("C10-d", "new_call_out: the value stored into ->delta derives from an expression over the delay, current_time AND call_out_time (the wheel can lag the clock while heart beats/resets run or during catch-up); the slot index derives from delay + current_time; time_left() uses both as well", 3)
+    nc = run.need(prog.func("new_call_out"), "new_call_out")
+    run.saw(nc)
+    dstores = [(b, i, n) for b, i, n in nc.nodes() if n.get("k") == "Asg" and n.get("op") == "=" and strip(n["L"]).get("k") == "Mem" and strip(n["L"]).get("f") == "delta"]
+    run.need(dstores, "stores to ->delta in new_call_out")
+    srcs = {strip(n["R"]).get("id") for b, i, n in dstores if strip(n["R"]).get("k") == "Ref"}
+    run.need(len(srcs) == 1 and None not in srcs, "a single local feeding ->delta")
+    vid = srcs.pop()
+    first = min(dstores, key=lambda x: x[2].get("l") or 0)
+    defs = [(b, i, n) for b, i, n in nc.nodes() if n.get("k") == "Asg" and n.get("op") == "=" and strip(n["L"]).get("k") == "Ref" and strip(n["L"]).get("id") == vid and nc.point_dominates((b.id, i), (first[0].id, first[1]))]
+    def names_of(f, e, depth=0, skip=()):
+        """globals/params an expression depends on, following local variables through their definitions"""
+        out = set()
+        for x in walk(e):
+            if x.get("k") != "Ref":
+                continue
+            out.add(x.get("n"))
+            if x.get("d") == "local" and depth < 3 and x.get("id") not in skip:
+                for b2, i2, n2 in f.nodes():
+                    if n2.get("k") == "Asg" and strip(n2["L"]).get("id") == x.get("id"):
+                        out |= names_of(f, n2["R"], depth + 1, tuple(skip) + (x.get("id"),))
+                    elif n2.get("k") == "Decl":
+                        for v in n2.get("vars", []):
+                            if v.get("id") == x.get("id") and "init" in v:
+                                out |= names_of(f, v["init"], depth + 1, tuple(skip) + (x.get("id"),))
+        return out
+
+    ok, why = False, "no assignment to the revolutions variable dominates the insertion"
+    if defs:
+        b, i, n = max(defs, key=lambda x: x[2].get("l") or 0)
+        names = names_of(nc, n["R"], 0, (vid,))
+        ok = {"call_out_time", "current_time"} <= names and any(x.get("k") == "Bin" and x.get("op") == "/" for x in walk(n["R"]))
+        why = "revolutions = %s" % show(n["R"])[:90]
+    run.ob("C10-d", "revolutions:new_call_out", ok, why + ("" if ok else " - does not depend on call_out_time: when the wheel lags the clock the entry gets too few revolutions and fires early"), nc.file, defs[0][2].get("l") if defs else nc.line, "new_call_out",
+           what="new_call_out computes the number of wheel revolutions without the wheel position call_out_time (%s)" % why)
+    slot = [(b, i, n) for b, i, n in nc.nodes() if n.get("k") == "Sub" and strip(n["b"]).get("n") == "call_list"]
+    run.need(slot, "call_list[...] in new_call_out")
+    sid = strip(slot[0][2]["i"]).get("id")
+    sdefs = [n for b, i, n in nc.nodes() if n.get("k") == "Asg" and n.get("op") == "=" and strip(n["L"]).get("id") == sid and nc.point_dominates((b.id, i), (slot[0][0].id, slot[0][1]))]
+    oks = bool(sdefs) and "current_time" in names_of(nc, sdefs[-1]["R"]) and any(x.get("k") == "Bin" and x.get("op") == "&" for x in walk(sdefs[-1]["R"]))
+    run.ob("C10-d", "slot:new_call_out", oks, "slot = %s" % (show(sdefs[-1]["R"])[:80] if sdefs else "?"), nc.file, slot[0][2].get("l"), "new_call_out", what="new_call_out picks the slot without the absolute due time (delay + current_time) masked to the wheel size")
+    tl = run.need(prog.func("time_left"), "time_left")
+    run.saw(tl)
+    rets = [n for b, i, n in tl.nodes() if n.get("k") == "Return" and n.get("e") is not None]
+    okt = bool(rets) and all({"call_out_time", "current_time"} <= names_of(tl, r["e"]) for r in rets)
+    run.ob("C10-d", "time_left", okt, "every return of time_left() is relative to both call_out_time and current_time", tl.file, tl.line, "time_left", what="time_left() reports the remaining delay without the wheel position or without the clock")
